@@ -216,6 +216,10 @@ def main():
         c.hist("body_bytes<=16" if len(body) <= 32 else ("body_bytes<=128" if len(body) <= 256 else "body_bytes>128"))
         for n in d["nodes"]:
             c.hist("node:" + n[0] + (":" + n[1] if n[0] == "P" else ""))
+        # hypothesis wf_dag of C18_sample_roundtrip: dependencies are numbered before their users
+        wf = all(all(x < i for x in (n[1] if n[0] == "D" else ([n[1]] + n[2] if n[0] == "M" else []))) for i, n in enumerate(d["nodes"]))
+        if not wf:
+            c.violation("correspondence", "exported DAG violates wf_dag (exporter no longer post-order?)", dict(job=job), no_input=True)
         if d["unsupported"]:
             c.hist("unsupported-node", len(d["unsupported"]))
             continue
